@@ -124,7 +124,11 @@ Definition longest_guard_free_path_cost (g : graph) (guards : list node) (fs : n
 Definition add_new (l acc : list node) : list node :=
   fold_right (fun m a => if mem m a then a else m :: a) acc l.
 Fixpoint reach_iter (fuel : nat) (g : graph) (S : list node) : list node :=
-  match fuel with O => S | S f => reach_iter f g (add_new (flat_map (succs g) S) S) end.
+  match fuel with
+  | O => S
+  | S f => let S' := add_new (flat_map (succs g) S) S in
+           if Nat.eqb (length S') (length S) then S else reach_iter f g S'
+  end.
 Definition succ_closed (g : graph) (S : list node) : bool :=
   forallb (fun n => forallb (fun m => mem m S) (succs g n)) S.
 (* everything reachable in at least one step from a (when the fuel suffices, which
@@ -166,6 +170,24 @@ Definition parser_graph : graph := restrict call_graph grp_parser.
 Definition resolver_graph : graph := restrict call_graph grp_resolver.
 Definition cfg_graph : graph := restrict call_graph grp_cfg.
 Definition value_graph : graph := restrict call_graph grp_value.
+
+(* what the model executable answers for one function (observation tie only; no theorem uses
+   the positive answers): is it a guard, does it lie on a cycle that avoids the guards (and the
+   descent edges), or is it provably on no guard-free cycle *)
+Definition on_cycle (g : graph) (a : node) : bool := mem a (reach_from g a).
+Definition group_graph (a : node) : graph :=
+  if mem a grp_parser then parser_graph
+  else if mem a grp_resolver then resolver_graph
+  else if mem a grp_cfg then cfg_graph
+  else runtime_graph.
+Inductive fstatus := FGuard | FUnguardedCycle | FDescentCycle | FOffCycle | FUnknown.
+Definition fn_status (a : node) : fstatus :=
+  let g := group_graph a in
+  if mem a guard_fns then FGuard
+  else if on_cycle (core g guard_fns descent_edges) a then FUnguardedCycle
+  else if on_cycle (remove_nodes g guard_fns) a then FDescentCycle
+  else if off_cycle (remove_nodes g guard_fns) a then FOffCycle
+  else FUnknown.
 
 (* what the model executable answers for a shape: is the list a cycle of the generated graph,
    and of which kind *)
